@@ -11,6 +11,7 @@ class Obj:
 
 
 def resolve(qualname):
+    qualname = qualname.split('#')[-1]          # 'Xtwin#module:function' names a twin-only contract of module:function
     mod, path = qualname.split(':')
     m = importlib.import_module('bisturi.' + mod)
     o = m
@@ -277,7 +278,31 @@ def g_deferred_expr(r):
     return dict(root_expr=expr, ghost_pkt=p, ghost_expected=expected)
 
 
+def g_raw_condition(r):
+    """a bare field used as a when / until condition: the callable must answer the truth value of the field's
+    CURRENT value in the packet (None, 0, b'' and [] are false; everything else is true), or raise what bool() raises"""
+    from bisturi.field import Int, Data
+    p = Obj()
+    kind = r.randrange(4)
+    if kind == 0:
+        f = Int(r.choice([1, 2, 3]))
+        v = r.choice([0, 1, 5, 255, -1])
+    elif kind == 1:
+        f = Data(r.choice([1, 2]))
+        v = r.choice([b'', b'x', b'\x00', b'ab'])
+    elif kind == 2:
+        f = Int(1).when(lambda **k: True)         # an optional gate: present or None
+        v = r.choice([None, 0, 7])
+    else:
+        f = Int(1).repeated(2)
+        v = r.choice([[], [0], [1, 2]])
+    f.field_name = 'g'
+    p.g = v
+    return dict(raw_condition=f, ghost_pkt=p, ghost_expected=('ok', bool(v)))
+
+
 GENERATORS = {
+    'C08twin#structural_fields:normalize_raw_condition_into_a_callable': g_raw_condition,
     'deferred:compile_expr_into_callable': g_deferred_expr,
     'field:Data._unpack_fixed_size': g_data_unpack('fixed'),
     'field:Data._unpack_variable_size_field': g_data_unpack('field'),
